@@ -192,7 +192,9 @@ std::string threadStates() { G_lock(); std::string s = describe(); G_unlock(); r
 void setDeadlockHandler(std::function<void(const char*)> f) { deadlockHandler = f; }
 void waitSteps(int64_t n) { G_lock(); self->st = B_STEPS; self->until = steps + n; reschedule(); G_unlock(); }
 void waitPred(std::function<bool()> p) { G_lock(); if (!p()) { self->st = B_PRED; self->pred = p; reschedule(); } G_unlock(); }
-void sleepNs(int64_t ns) { G_lock(); self->st = B_SLEEP; self->until = vclock_ns + ns; reschedule(); G_unlock(); }
+static std::function<void()> wakeHandler;
+void setWakeHandler(std::function<void()> f) { wakeHandler = f; }
+void sleepNs(int64_t ns) { G_lock(); self->st = B_SLEEP; self->until = vclock_ns + ns; reschedule(); G_unlock(); if (wakeHandler) wakeHandler(); }
 void yield() { G_lock(); reschedule(); G_unlock(); }
 }
 
@@ -289,12 +291,14 @@ int pthread_cond_broadcast(pthread_cond_t* cv) {
 int nanosleep(const struct timespec* req, struct timespec* rem) {
     if (!enabled || !self) { static auto f = (int(*)(const struct timespec*, struct timespec*))dlsym(RTLD_NEXT, "nanosleep"); return f(req, rem); }
     G_lock(); events++; self->st = B_SLEEP; self->until = vclock_ns + req->tv_sec * 1000000000LL + req->tv_nsec; reschedule(); G_unlock();
+    if (cosched::wakeHandler) cosched::wakeHandler();
     return 0;
 }
 int clock_nanosleep(clockid_t, int flags, const struct timespec* req, struct timespec* rem) {
     if (!enabled || !self) { static auto f = (int(*)(clockid_t, int, const struct timespec*, struct timespec*))dlsym(RTLD_NEXT, "clock_nanosleep"); return f(CLOCK_MONOTONIC, flags, req, rem); }
     if (flags & TIMER_ABSTIME) {
         G_lock(); events++; self->st = B_SLEEP; self->until = req->tv_sec * 1000000000LL + req->tv_nsec; reschedule(); G_unlock();
+        if (cosched::wakeHandler) cosched::wakeHandler();
         return 0;
     }
     return nanosleep(req, rem);
